@@ -47,7 +47,7 @@ def gaussian(pos, centre, mass, nu, t, dim):
     return mass / (4 * np.pi * nu * t) ** (dim / 2) * np.exp(-r2 / (4 * nu * t))
 
 
-def run_one(kind, n, centre, strength, nu, direction, dtype, aspect="square"):
+def run_one(kind, n, centre, strength, nu, direction, dtype, aspect="square", T=0.15):
     real_t = np.dtype(dtype).type
     dim = simcfg.dim_of(kind)
     shape = (n,) * dim
@@ -61,7 +61,6 @@ def run_one(kind, n, centre, strength, nu, direction, dtype, aspect="square"):
     sim = simcfg.make_sim(cfg)
     U = np.array(direction[:dim], dtype=np.float64) * 0.4
     t0 = CORE**2 / (4 * nu)
-    T = 0.15
     pos = sim.position_field.astype(np.float64)
     extent = np.array([x_range * shape[dim - 1 - k] / shape[-1] for k in range(dim)])  # domain length per axis (x, y, z)
     c0 = np.array(centre[:dim]) * extent
@@ -108,19 +107,21 @@ def run_one(kind, n, centre, strength, nu, direction, dtype, aspect="square"):
     return err / norm, steps, bool(np.all(np.isfinite(got))), err_u
 
 
-def case_family(kind, resolutions, centre, strength, nu, direction, dtype, aspect="square"):
+def case_family(kind, resolutions, centre, strength, nu, direction, dtype, aspect="square", T=0.15, regime="advective"):
     fails = []
     errs = []
     errs_u = []
     for n in resolutions:
-        e, steps, finite, eu = run_one(kind, n, centre, strength, nu, direction, dtype, aspect)
+        e, steps, finite, eu = run_one(kind, n, centre, strength, nu, direction, dtype, aspect, T)
         errs.append(e)
         errs_u.append(eu)
         if not finite:
             fails.append(Fail(f"{kind}:nonfinite", "simulation produced non-finite values", n=n))
     key = f"{kind}|{dtype}"
     bounds = json.loads(BOUNDS_FILE.read_text()) if BOUNDS_FILE.exists() else {}
-    ctx = dict(kind=kind, resolutions=list(resolutions), centre=centre, strength=strength, nu=nu, direction=direction, dtype=dtype, errors=errs, aspect=aspect, velocity_errors=errs_u)
+    if regime != "advective":
+        bounds = {}  # the calibrated bounds belong to the advective families; the other regimes are decided by the order criteria
+    ctx = dict(regime=regime, final_time=T, kind=kind, resolutions=list(resolutions), centre=centre, strength=strength, nu=nu, direction=direction, dtype=dtype, errors=errs, aspect=aspect, velocity_errors=errs_u)
     orders = []
     # (1) every refinement reduces the error; (2) every doubling of the resolution reduces it at order >= 0.5
     # (successive pairs are NOT required to show order 1: spatial (third-order, dissipative) and temporal
@@ -177,6 +178,11 @@ def families(tier):
             for s in ((1.0, 10.0) if kind == "ns2d" else (1.0,)):
                 for dt in dts:
                     out.append(dict(kind=kind, resolutions=res[kind][:2] if quick else res[kind][:3], centre=centres[0], strength=s, nu=nus[0], direction=dirs[0], dtype=dt, aspect=aspect))
+    # diffusion-limited regime (high viscosity, slow stream, longer run): the recommended step is set by the viscous limit,
+    # which in 3-D is tighter than in 2-D; single precision reaches the unstable mode within the run
+    for kind, res_v in (("pt3ds", [16, 32] if quick else [24, 48]), ("pt2d", [32, 64])):
+        for dt in (("float32",) if quick else ("float32", "float64")):
+            out.append(dict(kind=kind, resolutions=res_v, centre=centres[0], strength=1.0, nu=2e-2, direction=[0.25, 0.125, -0.2], dtype=dt, T=0.42, regime="viscous"))
     return out
 
 
